@@ -137,6 +137,18 @@ def stream(rng, n, d, W):
     return out[:n]
 
 
+def restless_stream(rng, n, d, W):
+    """after two quiet windows the level jumps again and again at intervals shorter than a window: every drift is
+    followed by another change before the detector can have collected a new reference window"""
+    nr = np.random.RandomState(rng.randrange(2 ** 31))
+    mean = nr.normal(0, 1, d)
+    out = (nr.normal(0, 1, (2 * W + rng.randint(0, W), d)) + mean).tolist()
+    while len(out) < n:
+        mean = mean + nr.choice([-1, 1], d) * nr.uniform(4, 8, d)
+        out.extend((nr.normal(0, 1, (rng.randint(max(3, W // 4), W), d)) + mean).tolist())
+    return out[:n]
+
+
 def params(rng):
     W = rng.choice([20, 30, 40, 100])
     return {"window_size": W, "ev_threshold": rng.choice([0.99, 0.9, 0.6]), "delta": rng.choice([0.1, 0.05, 0.01]),
